@@ -2321,7 +2321,7 @@ class sptensor:
             updated_key = []
             for dim, entry in enumerate(key):
                 if isinstance(entry, (int, np.integer)) and entry < 0:
-                    entry = self.shape[dim] + entry  # noqa: PLW2901
+                    entry = int(self.shape[dim] + entry)  # noqa: PLW2901
                 updated_key.append(entry)
             return self._set_subtensor(updated_key, value)
         # Case 2: Subscripts
